@@ -111,6 +111,9 @@ func (h posHashring) GetN(_ string, ts *prompb.TimeSeries, n uint64) (receive.En
 		if l.Name == "vstart" {
 			start, _ = strconv.Atoi(l.Value)
 		}
+		if l.Name == "vfail" { // stands for a tenant / series no hashring is configured for
+			return receive.Endpoint{}, fmt.Errorf("verif: no matching hashring to handle this series")
+		}
 	}
 	return h.eps[(start+int(n))%len(h.eps)], nil
 }
